@@ -284,6 +284,11 @@ def inplace_cases(rng):
         return outs
     add("writes into int64 / float32 / bool / uint8 tensors convert the values", write_into_other_dtypes, torch.tensor(rng.integers(0, 5, size=(2, 3)) / 2.0, dtype=torch.double))
 
+    def write_through_diagonal(x):
+        torch.diagonal(x).mul_(2.0)
+        return x
+    add("write through a diagonal view", write_through_diagonal, R(3, 3))
+
     def diag_div(x, y):
         return x.clone().div_(y)
     add("div_", diag_div, R(2, 3), torch.tensor(rng.integers(1, 4, size=(2, 3)) / 1.0, dtype=torch.double))
